@@ -551,6 +551,9 @@ func (vc *VC) frameObligations(kindPfx string, entry, exit *State, guard Term, m
 	}
 	sort.Strings(ks)
 	for _, k := range ks {
+		if strings.HasPrefix(k, "GV:") {
+			continue // ghost visited sets are not memory
+		}
 		h1 := vc.heap(exit, k)
 		h0 := vc.heap(entry, k)
 		if h1.S == h0.S {
